@@ -5,15 +5,36 @@ RULE = ("'eventually returns' is restated as logical budgets enforced by monitor
         "constraint executions per pass <= 4*(total domain size * #constraints + #constraints); executed lines per "
         "propagator call (sys.monitoring) <= 2000+120*(n+#params)^2; choices <= 2*product of domain sizes + 8; "
         "backtracks <= 2*choices; shaving probes per call <= 8*(total size + #domains); restarts <= objective width + "
-        "3. Compiled runs: parent-side stall watchdog, stalled case replayed under the budgets. distinct = distinct "
+        "3. Compiled runs: parent-side stall watchdog, stalled case replayed under the budgets. Single filtering calls of "
+        "every type on random boxes up to arity 8 under the same line budget / watchdog. distinct = distinct "
         "(model, cfg, operation); non-trivial = >= 1 choice")
 
 
+def call_jobs(tier, seed):
+    """Termination of single filtering calls beyond what searches on small models reach (arity up to 8): the random and
+    deep-arity call streams of C05, interpreted under the line budget and compiled under the stall watchdog."""
+    from framework import oracles as O
+    from framework.props import callfamily
+
+    return [j for j in callfamily.build_jobs("C04", tier, seed + 29, O.TYPES, zero_cap_stream=False)
+            if j.tag.startswith(("rnd:", "deep:", "lex:"))]
+
+
 def main(tier, seed):
+    def post(rep, extra):
+        from framework import oracles as O
+        from framework.props import callfamily
+
+        d, rep.distinct = rep.distinct, set()
+        callfamily.aggregate(rep, extra, O.TYPES)
+        rep.distinct = set(d) | set("call:" + str(h) for h in rep.distinct)
+
     rep = _modelprop.run(
-        "C04", tier, seed, RULE, do=["enum", "opt"], monitors=["budget"], orders=0,
+        "C04", tier, seed, RULE, do=["enum", "opt"], monitors=["budget"], orders=0, extra_jobs=call_jobs, post=post,
         needs=[("budget.prop_execs", 20000, "execution counter"), ("budget.passes", 5000, "pass counter"),
-               ("budget.shaving_probes", 500, "probe counter"), ("runs_jit", 300, "compiled runs")],
+               ("budget.shaving_probes", 500, "probe counter"), ("runs_jit", 300, "compiled runs"),
+               ("calls_interp", 5000, "single calls under the line budget"),
+               ("calls_jit", 10000, "compiled single calls under the stall watchdog")],
         assumptions=["budgets are combinatorial bounds with a x4 safety factor (DESIGN.md C04)",
                      "a run that exceeds a budget is a violation only on plane A; wall-clock stalls are replayed there"])
     rep.extra["budgets"] = {"pass_limit_max_seen": rep.counters.get("budget.pass_limit"),
